@@ -373,6 +373,44 @@ func c09mid(c *Ctx, fn *ssa.Function, policy bool) {
 			amount = bc.Call.Args[0]
 		}
 		var minUnused, floor0 bool
+		// the builtin forms: min(reclaimable, unused) and max(x, 0) somewhere behind the amount
+		if amount != nil {
+			var fromParamV func(v ssa.Value, d int) bool
+			fromParamV = func(v ssa.Value, d int) bool {
+				for _, l := range an.Sources(v, nil) {
+					if pr, ok := l.(*ssa.Parameter); ok && strings.HasPrefix(pr.Name(), "allocatable") {
+						return true
+					}
+					if call, ok := l.(*ssa.Call); ok && d < 4 && (an.IsBuiltinCall(call, "min") || an.IsBuiltinCall(call, "max")) {
+						for _, a := range call.Call.Args {
+							if fromParamV(a, d+1) {
+								return true
+							}
+						}
+					}
+				}
+				return false
+			}
+			for x := range backwardAll(amount) {
+				call, ok := x.(*ssa.Call)
+				if !ok || len(call.Call.Args) != 2 {
+					continue
+				}
+				a0, a1 := call.Call.Args[0], call.Call.Args[1]
+				if an.IsBuiltinCall(call, "min") {
+					if (fromParamV(a0, 0) && strings.Contains(an.Path(a1), "nodeUnused")) || (fromParamV(a1, 0) && strings.Contains(an.Path(a0), "nodeUnused")) {
+						minUnused = true
+					}
+				}
+				if an.IsBuiltinCall(call, "max") {
+					k0, c0 := constIntOf(a0)
+					k1, c1 := constIntOf(a1)
+					if (c0 && k0 == 0 && fromParamV(a1, 0)) || (c1 && k1 == 0 && fromParamV(a0, 0)) {
+						floor0 = true
+					}
+				}
+			}
+		}
 		if p2, ok := amount.(*ssa.Phi); ok {
 			// phi(x, 0) under x < 0 ; x = phi(param, unused) under param > unused
 			for _, b := range fn.Blocks {
@@ -386,6 +424,15 @@ func c09mid(c *Ctx, fn *ssa.Function, policy bool) {
 					for _, l := range src {
 						if pr, ok := l.(*ssa.Parameter); ok && strings.HasPrefix(pr.Name(), "allocatable") {
 							fromParam = true
+						}
+						if call, ok := l.(*ssa.Call); ok && an.IsBuiltinCall(call, "min") {
+							for _, a := range call.Call.Args {
+								for _, l2 := range an.Sources(a, nil) {
+									if pr, ok := l2.(*ssa.Parameter); ok && strings.HasPrefix(pr.Name(), "allocatable") {
+										fromParam = true
+									}
+								}
+							}
 						}
 					}
 					if !fromParam {
